@@ -650,6 +650,8 @@ def run(ctx):
     found_any = bool(ctx.violations) or bool(ctx.known_hits)
     if not proof_ok:
         why = translator_error or ("rejected by the checker: " + "; ".join(diag[:6]) if diag else "; ".join(ctx.cov.get("lake_errors", [])))
+        if not why:
+            why = log.strip()[-600:]
         if failed_routines:
             why = "routines rejected: %s. %s" % (", ".join(failed_routines), why)
         if not found_any:
